@@ -143,6 +143,8 @@ struct Case<'a> {
     limit: Option<&'a ResourceSet>,
     dup_roa: bool,
     dup_ann: bool,
+    /// hand the ROAs to the analyser in reverse order
+    rev_roa: bool,
 }
 
 /// One differential comparison. Returns a violation text.
@@ -163,6 +165,9 @@ fn compare(analyser: &BgpAnalyser, c: &Case) -> Option<(String, String)> {
         if let Some(r) = c.roas.first() {
             conf.push(configured(r));
         }
+    }
+    if c.rev_roa {
+        conf.reverse();
     }
     let report = analyser.analyse(&conf, c.held, c.limit.cloned());
     // ROAs that are held take part in validation
@@ -486,6 +491,7 @@ fn replay(file: &str) -> i32 {
         limit: limit.1.as_ref(),
         dup_roa: field("dup_roa") == "true",
         dup_ann: field("dup_ann") == "true",
+        rev_roa: field("rev_roa") == "true",
     };
     println!("replaying: {} ROAs, {} announcements, held={}, limit={}", roas.len(), anns.len(), held.0, limit.0);
     match compare(&analyser, &c) {
@@ -554,7 +560,7 @@ pub fn run(tier: &Tier, args: &[String]) -> i32 {
         let ann_sets = Arc::new(subsets(&ann_menu, max_anns));
         spaces.push(json!({
             "universe": uname, "max_roas": max_roas, "max_anns": max_anns, "roa_menu": roa_menu.len(), "ann_menu": ann_menu.len(),
-            "roa_sets": roa_sets.len(), "ann_sets": ann_sets.len(), "scopes": helds.len(), "limits": limits.len(), "duplicate_variants": 3,
+            "roa_sets": roa_sets.len(), "ann_sets": ann_sets.len(), "scopes": helds.len(), "limits": limits.len(), "duplicate_variants": 3, "reversed_roa_order_variant": true,
         }));
         if samples.len() < 4 {
             samples.push(json!({
@@ -595,15 +601,18 @@ pub fn run(tier: &Tier, args: &[String]) -> i32 {
                                 }
                             }
                             for (lname, limit) in limits.iter() {
-                                for (dup_roa, dup_ann) in [(false, false), (true, false), (false, true)] {
-                                    if (dup_roa || dup_ann) && limit.is_some() {
+                                for (dup_roa, dup_ann, rev_roa) in [(false, false, false), (true, false, false), (false, true, false), (false, false, true)] {
+                                    if (dup_roa || dup_ann || rev_roa) && limit.is_some() {
+                                        continue;
+                                    }
+                                    if rev_roa && roas.len() < 2 {
                                         continue;
                                     }
                                     if (dup_roa && roas.is_empty()) || (dup_ann && anns.is_empty()) {
                                         continue;
                                     }
                                     local += 1;
-                                    let c = Case { roas, anns, held: &held, held_name: &hname, limit: limit.as_ref(), dup_roa, dup_ann };
+                                    let c = Case { roas, anns, held: &held, held_name: &hname, limit: limit.as_ref(), dup_roa, dup_ann, rev_roa };
                                     let r = std::panic::catch_unwind(std::panic::AssertUnwindSafe(|| compare(&analyser, &c)));
                                     let v = match r {
                                         Ok(v) => v,
@@ -613,7 +622,7 @@ pub fn run(tier: &Tier, args: &[String]) -> i32 {
                                         let mut f = findings.lock().unwrap();
                                         if f.len() < 200 {
                                             let input = format!(
-                                                "universe={uname} held={hname} limit={lname} dup_roa={dup_roa} dup_ann={dup_ann} roas={:?} anns={:?}",
+                                                "universe={uname} held={hname} limit={lname} dup_roa={dup_roa} dup_ann={dup_ann} rev_roa={rev_roa} roas={:?} anns={:?}",
                                                 roas.iter().map(|r| format!("{}-{} => {}", r.p.text(), r.max, r.asn)).collect::<Vec<_>>(),
                                                 anns.iter().map(|a| format!("{} AS{}", a.p.text(), a.asn)).collect::<Vec<_>>()
                                             );
